@@ -105,7 +105,7 @@ IsPoly == Done /\ res.t \in {"tri", "quad", "tri3", "quad3"}
 \* the answer does not depend on where the vertex cycle starts or on its direction
 CycleInvariant == IsPoly =>
    \A k \in 0..(Len(res.poly) - 1) : \A rev \in BOOLEAN :
-      LET p2 == IF rev THEN Rotate(Reverse(res.poly), k) ELSE Rotate(res.poly, k) IN
+      LET p2 == IF rev THEN Rotate(RevSeq(res.poly), k) ELSE Rotate(res.poly, k) IN
       \A i \in 1..Len(res.q) : res.q[i][3] # 0 => (InClosed2(p2, res.q[i]) <=> res.a.inside[i])
 \* winding number and crossing parity agree for simple polygons off the boundary; the boundary is in the region
 WindingIsParity == IsPoly =>
